@@ -34,7 +34,7 @@ Fixpoint simple (p : pexp) : Prop :=
   | PEmpty | PEoi | PCall _ _ _ | PRaiseRule _ _ _ => True
   | PInstr i => no_target i = true
   | PSeq a b | PAlt a b | PRecExpr a b => simple a /\ simple b
-  | PStar a | PNot a | PAnd a | PRep _ _ a | PInline _ a | PSkip a | PRecRule _ _ a | PRaiseExpr _ a => simple a
+  | PStar a | PNot a | PAnd a | PRep _ _ a | PInline _ a | PSkip a | PRecRule _ _ a | PRaiseExpr _ a | PNegSet a => simple a
   | PWrap pre a post => no_target pre = true /\ simple a /\ no_target post = true
   end.
 
